@@ -147,6 +147,20 @@ fn agg_item(rng: &mut Rng, t: &Table, q: &str, allow_distinct: bool) -> String {
     let any: Vec<usize> = cols_where(t, |ty| ty != Ty::Bool);
     let ints = cols_where(t, |ty| ty.is_int());
     let col = |c: usize| format!("{q}{}", t.cols[c].name);
+    // one aggregate in eight is one of the less travelled order-insensitive ones (their
+    // partial states take other merge arms); drawn from a forked stream
+    let mut rare = rng.fork(0xa66e);
+    if rare.chance(1, 8) {
+        let bools = cols_where(t, |ty| ty == Ty::Bool);
+        match rare.below(3) {
+            0 if !bools.is_empty() => return format!("BOOL_AND({})", col(*rare.pick(&bools))),
+            1 if !bools.is_empty() => return format!("BOOL_OR({})", col(*rare.pick(&bools))),
+            _ => {
+                let p = atom(&mut rare, t, q);
+                return format!("COUNT_IF({p})");
+            }
+        }
+    }
     match rng.below(if allow_distinct { 11 } else { 10 }) {
         0 | 1 => "COUNT(*)".to_string(),
         2 => format!("COUNT({})", col(rng.usize(t.cols.len()))),
@@ -244,12 +258,24 @@ pub fn gen(rng: &mut Rng, tables: &[Table], fam: Family) -> Option<Stmt> {
             }
             let star = rng.chance(1, 8);
             let sel = if star { "*".to_string() } else { items.join(", ") };
+            let wh = opt_where(rng, t, "");
+            // one plain select in six asks for an UNORDERED page: which rows come back is
+            // open, how many is not (min(n, max(0, rows - m))), and each must be a row of the
+            // un-paged statement; checks compare the count (feature `unordered_page`)
+            let mut pg = rng.fork(0x9a6e);
+            let (page, features) = if pg.chance(1, 6) {
+                let n = 1 + pg.usize(12);
+                let m = *pg.pick(&[0usize, 1, 5, 20, 100]) + pg.usize(3);
+                (format!(" LIMIT {n} OFFSET {m}"), vec!["unordered_page".to_string()])
+            } else {
+                (String::new(), vec![])
+            };
             Some(Stmt {
-                sql: format!("SELECT {sel} FROM {tn}{}", opt_where(rng, t, "")),
+                sql: format!("SELECT {sel} FROM {tn}{wh}{page}"),
                 family: "filter",
                 order_keys: vec![],
                 tables: vec![tn.clone()],
-                features: vec![],
+                features,
             })
         }
         Family::GlobalAgg => {
@@ -281,23 +307,28 @@ pub fn gen(rng: &mut Rng, tables: &[Table], fam: Family) -> Option<Stmt> {
             let mut g = gc.clone();
             rng.shuffle(&mut g);
             g.truncate(1 + rng.usize(2.min(g.len())));
-            let gnames: Vec<String> = g.iter().map(|&c| t.cols[c].name.clone()).collect();
+            // one grouped statement in five names everything through a table alias
+            // (`SELECT a.k, .. FROM t a GROUP BY a.k ORDER BY a.k`): the output column is still
+            // `k`, the sort key is a qualified expression
+            let q = if rng.fork(0x9a1).chance(1, 5) { "a." } else { "" };
+            let from_name = if q.is_empty() { tn.clone() } else { format!("{tn} a") };
+            let gnames: Vec<String> = g.iter().map(|&c| format!("{q}{}", t.cols[c].name)).collect();
             let n = 1 + rng.usize(3);
             let mut items = gnames.clone();
             let mut aggs = Vec::new();
             for i in 0..n {
-                let a = agg_item(rng, t, "", false);
+                let a = agg_item(rng, t, q, false);
                 aggs.push(a.clone());
                 items.push(if rng.coin() { format!("{a} AS a{i}") } else { a });
             }
-            let wh = opt_where(rng, t, "");
+            let wh = opt_where(rng, t, q);
             let having = if rng.chance(1, 4) {
                 format!(" HAVING COUNT(*) > {}", rng.usize(4))
             } else {
                 String::new()
             };
             let mut sql = format!(
-                "SELECT {} FROM {tn}{wh} GROUP BY {}{having}",
+                "SELECT {} FROM {from_name}{wh} GROUP BY {}{having}",
                 items.join(", "),
                 gnames.join(", ")
             );
@@ -311,7 +342,10 @@ pub fn gen(rng: &mut Rng, tables: &[Table], fam: Family) -> Option<Stmt> {
                     sql.push_str(&limit_clause(rng, 12));
                 }
             }
-            let features = dup_feature(&items);
+            let mut features = dup_feature(&items);
+            if !q.is_empty() {
+                features.push("qualified_group_keys".to_string());
+            }
             Some(Stmt { sql, family: "group_agg", order_keys, tables: vec![tn.clone()], features })
         }
         Family::TopN | Family::SortAll => {
@@ -329,17 +363,20 @@ pub fn gen(rng: &mut Rng, tables: &[Table], fam: Family) -> Option<Stmt> {
             let items: Vec<String> = sel.iter().map(|&c| t.cols[c].name.clone()).collect();
             let ob: Vec<String> = keys.iter().map(|&c| format!("{}{}", t.cols[c].name, dir(rng))).collect();
             let lim = if fam == Family::TopN { limit_clause(rng, t.rows) } else { String::new() };
+            // one sorted statement in six selects the wildcard: the output columns are then
+            // the table's own, in table order, and the sort keys sit at their column indices
+            let star = rng.fork(0x57a2).chance(1, 6);
             Some(Stmt {
                 sql: format!(
                     "SELECT {} FROM {tn}{} ORDER BY {}{lim}",
-                    items.join(", "),
+                    if star { "*".to_string() } else { items.join(", ") },
                     opt_where(rng, t, ""),
                     ob.join(", ")
                 ),
                 family: if fam == Family::TopN { "topn" } else { "sort_all" },
-                order_keys: (0..keys.len()).collect(),
+                order_keys: if star { keys.clone() } else { (0..keys.len()).collect() },
                 tables: vec![tn.clone()],
-                features: vec![],
+                features: if star { vec!["select_star".to_string()] } else { vec![] },
             })
         }
         Family::Join | Family::JoinAgg | Family::SelfJoin => {
@@ -377,8 +414,64 @@ pub fn gen(rng: &mut Rng, tables: &[Table], fam: Family) -> Option<Stmt> {
             } else {
                 String::new()
             };
-            let from = format!("{tn} a {jt} {} b ON {}", o.name, on.join(" AND "));
-            let tables = if fam == Family::SelfJoin { vec![tn.clone()] } else { vec![tn.clone(), o.name.clone()] };
+            // one join in four reads one side through a derived table with a range filter
+            // on the clustered id column: whole batches (and with them whole scan
+            // partitions) of that side then carry no row into the join. Drawn from a
+            // forked stream so the other draws of the statement do not shift.
+            let mut dr = rng.fork(0xd371);
+            let (a_src, b_src) = if dr.chance(1, 4) {
+                let side_a = dr.coin();
+                let st = if side_a { t } else { o };
+                let cols: Vec<String> = st.cols.iter().map(|c| c.name.clone()).collect();
+                let op = *dr.pick(&[">=", ">=", "<", ">", "<="]);
+                let lit = if st.rows > 0 { dr.usize(st.rows + 1).to_string() } else { "0".to_string() };
+                let d = format!("(SELECT {} FROM {} WHERE id {op} {lit})", cols.join(", "), st.name);
+                if side_a {
+                    (d, o.name.clone())
+                } else {
+                    (tn.clone(), d)
+                }
+            } else {
+                (tn.clone(), o.name.clone())
+            };
+            let derived = a_src.starts_with('(') || b_src.starts_with('(');
+            // one join in three continues left-deep into a third input (at most 40 rows of
+            // any catalog table, so the result stays small): (a JT b) JT2 c. With an outer
+            // JT2 the first join sits under a null-supplying or a preserved side.
+            let mut j3 = rng.fork(0x3a11);
+            let mut third = String::new();
+            let mut third_table: Option<String> = None;
+            if fam != Family::SelfJoin && j3.chance(1, 3) {
+                let c_t = &tables[j3.usize(tables.len())];
+                let mut cands: Vec<String> = Vec::new();
+                for (side, st) in [("a", t), ("b", o)] {
+                    for c in st.cols.iter().skip(1) {
+                        if c.ty == Ty::F64 || c.ty == Ty::Bool {
+                            continue;
+                        }
+                        if let Some(j) = c_t.col(&c.name) {
+                            if c_t.cols[j].ty == c.ty {
+                                cands.push(format!("{side}.{} = c.{}", c.name, c_t.cols[j].name));
+                            }
+                        }
+                    }
+                }
+                if !cands.is_empty() {
+                    let jt2 = *j3.pick(&["JOIN", "LEFT JOIN", "RIGHT JOIN", "FULL OUTER JOIN", "RIGHT JOIN"]);
+                    let cols: Vec<String> = c_t.cols.iter().map(|c| c.name.clone()).collect();
+                    let cut = 1 + j3.usize(40);
+                    third = format!(" {jt2} (SELECT {} FROM {} WHERE id < {cut}) c ON {}", cols.join(", "), c_t.name, j3.pick(&cands));
+                    third_table = Some(c_t.name.clone());
+                }
+            }
+            let from = format!("{a_src} a {jt} {b_src} b ON {}{third}", on.join(" AND "));
+            let mut tables = if fam == Family::SelfJoin { vec![tn.clone()] } else { vec![tn.clone(), o.name.clone()] };
+            if let Some(c) = &third_table {
+                if !tables.contains(c) {
+                    tables.push(c.clone());
+                }
+            }
+            let three = third_table.is_some();
             if fam == Family::JoinAgg || (fam == Family::SelfJoin && rng.coin()) {
                 let gc = group_cols(t);
                 let grouped = !gc.is_empty() && rng.chance(2, 3);
@@ -400,10 +493,22 @@ pub fn gen(rng: &mut Rng, tables: &[Table], fam: Family) -> Option<Stmt> {
                     family: if fam == Family::SelfJoin { "self_join_agg" } else { "join_agg" },
                     order_keys: vec![],
                     tables,
-                    features: vec![],
+                    features: {
+                        let mut f = Vec::new();
+                        if derived {
+                            f.push("derived_join_side".to_string());
+                        }
+                        if three {
+                            f.push("three_way_join".to_string());
+                        }
+                        f
+                    },
                 })
             } else {
                 let mut items = vec!["a.id AS a_id".to_string(), "b.id AS b_id".to_string()];
+                if three {
+                    items.push("c.id AS c_id".to_string());
+                }
                 for (n, c) in t.cols.iter().enumerate().skip(1) {
                     if rng.chance(1, 3) {
                         items.push(format!("a.{} AS a_{}{n}", c.name, c.name));
@@ -414,12 +519,44 @@ pub fn gen(rng: &mut Rng, tables: &[Table], fam: Family) -> Option<Stmt> {
                         items.push(format!("b.{} AS b_{}{n}", c.name, c.name));
                     }
                 }
+                // one plain join in five also asks for a correlated EXISTS and sorts by columns of
+                // both sides that the select list may not carry
+                let mut ex = rng.fork(0xe715);
+                let mut exists_sorted = false;
+                let wh = if ex.chance(1, 5) {
+                    let (i, j) = pairs[0];
+                    let e = format!("EXISTS (SELECT 1 FROM {} z WHERE z.{} = a.{})", o.name, o.cols[j].name, t.cols[i].name);
+                    let ac = &t.cols[ex.usize(t.cols.len())].name;
+                    let bc = &o.cols[ex.usize(o.cols.len())].name;
+                    exists_sorted = true;
+                    // and carries the two sort columns as unaliased qualified select items
+                    // (output names `ac`, `bc`) when those names differ
+                    if ac != bc && ac != "id" && bc != "id" {
+                        items.push(format!("a.{ac}"));
+                        items.push(format!("b.{bc}"));
+                    }
+                    format!("{} ORDER BY a.{ac}, b.{bc}, a.id, b.id", if wh.is_empty() { format!(" WHERE {e}") } else { format!("{wh} AND {e}") })
+                } else {
+                    wh
+                };
                 Some(Stmt {
                     sql: format!("SELECT {} FROM {from}{wh}", items.join(", ")),
                     family: if fam == Family::SelfJoin { "self_join" } else { "join" },
                     order_keys: vec![],
                     tables,
-                    features: vec![],
+                    features: {
+                        let mut f = Vec::new();
+                        if derived {
+                            f.push("derived_join_side".to_string());
+                        }
+                        if three {
+                            f.push("three_way_join".to_string());
+                        }
+                        if exists_sorted {
+                            f.push("exists_and_two_sided_order_by".to_string());
+                        }
+                        f
+                    },
                 })
             }
         }
@@ -475,11 +612,23 @@ pub fn gen(rng: &mut Rng, tables: &[Table], fam: Family) -> Option<Stmt> {
                     format!("SELECT id, (SELECT COUNT(*) FROM {}{}) AS n FROM {tn}{}", o.name, opt_where(rng, o, ""), opt_where(rng, t, ""))
                 }
             };
+            // one in three sorts by a column the select list may not carry (compared as a
+            // multiset: the statement must still bind and answer on every path)
+            let mut ob = rng.fork(0x0b51);
+            let mut features = vec![];
+            let sql = if ob.chance(1, 3) {
+                let q = if sql.contains(&format!("FROM {tn} x WHERE")) { "x." } else { "" };
+                let c = &t.cols[ob.usize(t.cols.len())].name;
+                features.push("order_by_unselected".to_string());
+                format!("{sql} ORDER BY {q}{c}, {q}id")
+            } else {
+                sql
+            };
             let mut tables = vec![tn.clone()];
             if o.name != *tn {
                 tables.push(o.name.clone());
             }
-            Some(Stmt { sql, family: "subquery", order_keys: vec![], tables, features: vec![] })
+            Some(Stmt { sql, family: "subquery", order_keys: vec![], tables, features })
         }
         Family::Cte => {
             let gc = group_cols(t);
